@@ -109,16 +109,32 @@ def rand_image(ctx, d, kind, shape, dtype=float, dyadic=True, lo=0, hi=16):
     return d.Image(data, scalar=False, **kw)
 
 
-def rand_config(ctx, kind, allow_offset=True):
+def rand_config(ctx, kind, allow_offset=True, late=None):
+    """`late`: name of a stage after the reduction that collapses the channels to one (the signal reduction itself is
+    then absent, i.e. channel preserving) - the shape of MultichromaticTracerAnalysis-like set-ups"""
     rnd = ctx.rng
+    nchan = {"OpticalImage": 3, "Image": 2, "ScalarImage": 0}[kind]
+    reducer = lambda: rnd.choice([("chan", k) for k in range(nchan)] + [("chanAdd", 0, 1)])
     red = None
-    if kind == "OpticalImage" and rnd.random() < 0.75:
-        red = rnd.choice([("chan", 0), ("chan", 1), ("chan", 2), ("chanAdd", 0, 1)])
+    if late is None and kind == "OpticalImage" and rnd.random() < 0.75:
+        red = reducer()
     aff = lambda: ("affine", rnd.choice([2.0, 0.5, 3.0, -1.0]), rnd.choice([0.0, 0.25, -1.0]) if allow_offset and rnd.random() < 0.4 else 0.0)
     clip = lambda: ("clip", rnd.choice([0.0, 0.5]) if allow_offset else 0.0, rnd.choice([None, 1.0, 2.0]))
     stage = lambda: rnd.choice([None, aff(), clip()])
-    return dict(opt=rnd.choice(OPTS), first=rnd.random() < 0.5, reduction=red, balancing=rnd.choice([None, aff()]),
-                restoration=stage(), model=stage())
+    cfg = dict(opt=rnd.choice(OPTS), first=rnd.random() < 0.5, reduction=red, balancing=rnd.choice([None, aff()]),
+               restoration=stage(), model=stage())
+    if late is not None and nchan:
+        cfg[late] = reducer()
+        # a stage that runs before the collapsing one must keep working on multi-channel data, one after it on scalar data:
+        # affine / clip do both
+    return cfg
+
+
+def pick_late(ctx, kind):
+    """None (reduction collapses or nothing does) or the later stage that collapses the channels"""
+    if kind == "ScalarImage" or ctx.rng.random() < 0.55:
+        return None
+    return ctx.rng.choice(["balancing", "model", "model", "restoration"])
 
 
 def build(d, cfg, base, log, scribble=False, real=None):
@@ -138,7 +154,7 @@ def correspondence(ctx, d):
     for _ in range(ctx.pick(1500, 12000)):
         kind = ctx.rng.choice(["ScalarImage", "OpticalImage", "OpticalImage", "Image"])
         shape = (ctx.rng.randint(1, 3), ctx.rng.randint(1, 4))
-        cfg = rand_config(ctx, kind)
+        cfg = rand_config(ctx, kind, late=pick_late(ctx, kind))
         has_base = ctx.rng.random() < 0.85
         scalar_signal = kind == "ScalarImage" or cfg["reduction"] is not None
         n_extra = ctx.rng.randint(0, 3) if (has_base and scalar_signal and ctx.rng.random() < 0.6) else 0
@@ -264,7 +280,7 @@ def oracle(ctx, d):
         kind = ctx.rng.choice(["ScalarImage", "OpticalImage", "OpticalImage", "Image"])
         dtype = ctx.rng.choice(dtypes)
         shape = (ctx.rng.randint(1, 6), ctx.rng.randint(1, 6))
-        cfg = rand_config(ctx, kind)
+        cfg = rand_config(ctx, kind, late=pick_late(ctx, kind))
         scalar_signal = kind == "ScalarImage" or cfg["reduction"] is not None
         has_base = ctx.rng.random() < 0.85
         n_extra = ctx.rng.randint(0, 3) if (has_base and scalar_signal) else 0
@@ -347,6 +363,39 @@ def oracle(ctx, d):
         wantk = "ScalarImage" if reduced else type(probe).__name__
         if type(res).__name__ != wantk:
             ctx.fail(f"C13:result-kind({type(probe).__name__},reduced={reduced})", f"result is {type(res).__name__}, expected {wantk}", case)
+
+    # --- O6 channels collapsed by a LATER stage (reduction absent): kind rule + metadata, exhaustive over
+    #        {balancing, restoration, model} x both orders x diff options x colour kinds x dtypes
+    for late in ("balancing", "restoration", "model"):
+        for first in (True, False):
+            for opt in OPTS:
+                for kind in ("OpticalImage", "Image"):
+                    for dtype in dtypes:
+                        for rep in range(ctx.pick(1, 4)):
+                            shape = (ctx.rng.randint(1, 6), ctx.rng.randint(1, 6))
+                            cfg = rand_config(ctx, kind, late=late)
+                            cfg["opt"], cfg["first"] = opt, first
+                            base = rand_image(ctx, d, kind, shape, dtype, dyadic=False)
+                            probe = rand_image(ctx, d, kind, shape, dtype, dyadic=False)
+                            case = dict(cfg={k: (list(v) if isinstance(v, tuple) else v) for k, v in cfg.items()}, late_collapse=late,
+                                        dtype=np.dtype(dtype).name, kind=kind, shape=list(shape))
+                            ctx.count(("late", late, first, opt, kind, np.dtype(dtype).name, shape, rep))
+                            log = []
+                            an = build(d, cfg, [base], log)
+                            res = an if isinstance(an, Raised) else call(lambda: an(probe))
+                            if isinstance(res, Raised):
+                                ctx.fail(f"C13:late-collapse({late},restoration-first={first}):raises-{type(res.exc).__name__}",
+                                         f"channels collapsed by the {late} stage (no signal reduction): the analysis raises {res.exc!r} instead of "
+                                         "returning a ScalarImage", case)
+                                continue
+                            if type(res).__name__ != "ScalarImage" or res.img.ndim != 2:
+                                ctx.fail(f"C13:late-collapse({late}):result-kind", f"one-channel result returned as {type(res).__name__} of shape {res.img.shape}", case)
+                            k = meta_equal(meta_snapshot(probe), meta_snapshot(res))
+                            if k:
+                                ctx.fail(f"C13:result-metadata({k})", f"result metadata '{k}' differs from the probe's", dict(case, key=k))
+                            outs = [a for n, a in log if n.startswith("out:")]
+                            if outs and (res.img.shape != outs[-1].shape or not np.array_equal(res.img, outs[-1])):
+                                ctx.fail("C13:result-is-not-last-stage-output", "the returned image does not hold the output of the last stage", case)
 
     # --- O3 positive / negative / absolute / plain --------------------------------------------------------
     for rep in range(ctx.pick(400, 4000)):
